@@ -27,7 +27,7 @@ ArgD(w, t, d) == [w |-> <<w>>, type |-> t, hasDef |-> TRUE, def |-> d, py |-> w,
 Fld(w, t, as, res, dep) == [w |-> <<w>>, type |-> t, args |-> as, py |-> w, res |-> res, dep |-> dep, desc |-> ""]
 AllLocs == <<"SCHEMA", "SCALAR", "OBJECT", "FIELD_DEFINITION", "ARGUMENT_DEFINITION", "INTERFACE", "UNION", "ENUM", "ENUM_VALUE",
              "INPUT_OBJECT", "INPUT_FIELD_DEFINITION">>
-Base == [camel |-> FALSE, query |-> "Query", mutation |-> "", subscription |-> "",
+Base == [camel |-> FALSE, query |-> "Query", mutation |-> "", subscription |-> "", sdres |-> "dr_schema",
   types |-> <<
     [k |-> "object", name |-> "Query", ifaces |-> <<>>, desc |-> "the root", dres |-> "", rt |-> "",
        fields |-> << Fld("items", ListOf(Named("Item")), <<Arg("filter", Named("Filter")), ArgD("first", Named("Int"), [k |-> "int", v |-> "10"])>>, "r_items", ""),
